@@ -55,3 +55,8 @@ package aead
 //@   fresh result.0
 //@   ensures [C02] whole_secret_is_the_key: result.1 == nil ==> result.0 != nil && called(@NewAEAD#1) && @NewAEAD#1.1 == nil && arg(@NewAEAD#1, 1) == secret && arg(@NewAEAD#1, 2) == 16 && result.0.aead == @NewAEAD#1.0 && nonceSize(result.0.aead.pay) == 16
 //@   ensures [C02] error_yields_no_cipher: result.1 != nil ==> result.0 == nil
+
+// Flow identifiers, CSRF nonces and generated secrets: 32 bytes straight from miscreant's generator.
+//@ func GenerateKey() []byte
+//@   modifies nothing
+//@   ensures [C06 C09 C02] thirty_two_bytes_from_the_generator: called(@GenerateKey#1) && arg(@GenerateKey#1, 0) == 32 && result == @GenerateKey#1
